@@ -246,6 +246,7 @@ func (m *MemEngine) Exists(ctx context.Context, u *storage.URI) (bool, error) {
 	m.mu.Lock()
 	defer m.mu.Unlock()
 	if _, ok := m.files[skey(u)]; ok {
+		m.done("exists", skey(u), nil, nil)
 		return true, nil
 	}
 	// directories exist when something lives under them
@@ -255,6 +256,7 @@ func (m *MemEngine) Exists(ctx context.Context, u *storage.URI) (bool, error) {
 			return true, nil
 		}
 	}
+	m.done("exists", skey(u), nil, fs.ErrNotExist)
 	return false, nil
 }
 
